@@ -113,6 +113,24 @@ CLAIMED = {
              'serde_json on sample values and the impl pairing against native name() on every run. PhantomData/Weak are a listed known '
              'finding. Feature-gated third-party impls are outside.',
         ref='DESIGN.md 6 (C12)'),
+    'C07': dict(
+        text='For a corpus of generic definitions (1-2 type parameters, lifetimes, bounds and where-clauses, defaults, concrete(..), '
+             'parameters bare / in Vec, Option, tuple, map, Box, reference / in another generic / inlined / flattened / in enum variants '
+             'of every tagging) expanded by the real derive, the generated decl(), decl_concrete(), name(), inline(), ident() and the dummy '
+             'parameter types are executed from their MIR with the type arguments abstract (uninterpreted), hence for all arguments: no '
+             'method panics; decl() contains no trace of the arguments; its header is `type <ident><free params in order, with the '
+             'TypeScript names of their defaults> = `; concretised parameters are not mentioned; name() = ident<argument names>; the '
+             'declaration body equals inline() with the arguments replaced by the parameter names; decl_concrete() = `type N = inline();`. '
+             'Each rope is validated at concrete arguments against the natively compiled derive output.',
+        ref='DESIGN.md 6 (C07)'),
+    'C14': dict(
+        text='Presentation equations over the corpus, for all type arguments: inlined field = by-name field with the name replaced by the '
+             'inline form; field/variant/container `as` = the binding with that type; decl_concrete() = `type N = inline();` for every item; '
+             'inline+flatten of a generic struct reproduce its body. Flattening is decided with the flattened text as a symbolic string '
+             '(object bodies and delimited members of the stated lengths): the real replace(" } & { ", " ") and parenthesis unwrapping yield '
+             'exactly the structural merge on every path. The class "lone flattened member whose outer parentheses do not match" is a '
+             'listed known finding.',
+        ref='DESIGN.md 6 (C14)'),
 }
 
 NOT_APPLICABLE = {
